@@ -373,6 +373,10 @@ class Unit:
                 em(a, kind='attr', **meta)
             if fs.sigonly:
                 em('#[verifier::external_body]', kind='attr', **meta)
+            if twin:
+                # proving `false` from a consistent precondition is hopeless: give up early (a contradictory
+                # precondition proves it at once, whatever the limit)
+                em('#[verifier::rlimit(2)]', kind='attr', **meta)
             h = head
             if twin:
                 h = re.sub(r'\bfn\s+(\w+)', r'fn \1__twin', h, count=1)
